@@ -42,7 +42,7 @@ type WorldModel interface {
 //
 // If h is nil, the DStarLite will use the g.HeuristicCost method if g implements
 // path.HeuristicCoster, falling back to path.NullHeuristic otherwise. If the graph does not
-// implement graph.Weighter, path.UniformCost is used. NewDStarLite will panic if g has
+// implement path.Weighted, path.UniformCost is used. NewDStarLite will panic if g has
 // a negative edge weight.
 func NewDStarLite(s, t graph.Node, g graph.Graph, h path.Heuristic, m WorldModel) *DStarLite {
 	/*
@@ -77,7 +77,7 @@ func NewDStarLite(s, t graph.Node, g graph.Graph, h path.Heuristic, m WorldModel
 	*/
 	d.last = d.s
 
-	if wg, ok := g.(graph.Weighted); ok {
+	if wg, ok := g.(path.Weighted); ok {
 		d.weight = wg.Weight
 	} else {
 		d.weight = path.UniformCost(g)
